@@ -95,7 +95,7 @@ def dumpWarnings (ws : List Warn) : String :=
 def errName : ErrKind → String
   | .syntax => "syntax" | .num => "num" | .digit => "digit" | .sdigit => "sdigit" | .range => "range"
   | .list => "list" | .str => "str" | .dtype => "dtype" | .textref => "textref" | .dataref => "dataref"
-  | .slotdefault => "slotdefault" | .prmlen => "prmlen"
+  | .slotdefault => "slotdefault" | .prmlen => "prmlen" | .missing => "missing"
 
 def showOutcome : Option (Res (Desc × List Warn)) → String
   | none => "fuel"
@@ -119,31 +119,18 @@ def stepGsd (w : List String) : Option String :=
 
 /-! ### Oracle C19 -/
 
-def textHasUnindexed (text : Str) : Bool :=
-  match Peg.parseGsd text with
-  | some (some tree) =>
-    match Peg.toAst tree with
-    | some ast => hasUnindexed ast
-    | none => false
-  | _ => false
-
 /-- C19 on one implementation observation:
 * never `panic` (and `parse` / `parse_with_warnings` agree);
 * for a text rendered from a description `d`: the result is exactly `d`. -/
 def oracleC19 (op obs : String) : Option (String × String) :=
-  let noPanic (t : String) : Option (String × String) :=
-    if obs = "panic" then
-      match hexToText t with
-      | some text =>
-        if textHasUnindexed text then some ("K_C19_unindexed", "panic: setting that needs an (index) is written without one")
-        else some ("C19", "the parser panicked")
-      | none => some ("C19", "the parser panicked")
+  let noPanic : Option (String × String) :=
+    if obs = "panic" then some ("C19", "the parser panicked")
     else if obs = "mismatch" then some ("C19", "parse and parse_with_warnings disagree")
     else none
   match splitWords op with
-  | ["p", t] => noPanic t
-  | ["r", t, want] =>
-    match noPanic t with
+  | ["p", _] => noPanic
+  | ["r", _, want] =>
+    match noPanic with
     | some f => some f
     | none =>
       if obs.startsWith s!"ok {want} w=" then none
